@@ -318,7 +318,7 @@ func sortPhases(log []string, phases []string) []string {
 
 func c16(run *ev.Run) int {
 	maxN := run.Pick(4, 6)
-	run.SetRule(fmt.Sprintf("cases = all interceptor lists up to length %d with nil at any position x all 2^(n-1) compositions into consecutive WithInterceptors groups x nesting of each group in {plain, WithOptions, WithClientOptions/WithHandlerOptions, two levels} (all nestings for <=2 groups, seeded sample above) x empty groups x a foreign interceptor in a group of its own after the first group (the groups are sub-slices of one backing array) x all-in-one outer wrapper (side-specific, or one WithOptions holding plain and nested groups side by side); the same option values build the clients and handlers of all 4 kinds (applied 4 times); one real call per kind through the loopback; also UnaryInterceptorFunc entries (even ids); layered option sets with 2-3 leaves sharing a parent; oracle: per-phase event log == log predicted from the flat declaration-order list, every id exactly once per phase; distinct by (list pattern, grouping, nesting class, kind, side)", maxN))
+	run.SetRule(fmt.Sprintf("cases = all interceptor lists up to length %d with nil at any position x all 2^(n-1) compositions into consecutive WithInterceptors groups x nesting of each group in {plain, WithOptions, WithClientOptions/WithHandlerOptions, two levels} (all nestings for <=2 groups, seeded sample above) x empty groups x a foreign interceptor in a group of its own after the first group (the groups are sub-slices of one backing array) x all-in-one outer wrapper (side-specific, or one WithOptions holding plain and nested groups side by side); the same option values build the clients and handlers of all 4 kinds (applied 4 times); one real call per kind through the loopback; also UnaryInterceptorFunc entries (even ids); layered option sets with 2-3 leaves sharing a parent; history: one WithInterceptors value in 2-3 option lists; oracle: per-phase event log == log predicted from the flat declaration-order list, every id exactly once per phase; distinct by (list pattern, grouping, nesting class, kind, side)", maxN))
 	var shapes []c16Shape
 	r := run.Rand("c16-shapes")
 	for n := 0; n <= maxN; n++ {
